@@ -88,7 +88,7 @@ Section IntervalModel.
     {| iv := b_sub B (iv a) (iv b);
        nanf := nanf a || nanf b
                || (i_eqb I (lower a) (i_ninf I) && i_eqb I (lower b) (i_ninf I))
-               || (i_eqb I (upper a) (i_ninf I) && i_eqb I (upper b) (i_ninf I)) |}.
+               || (i_eqb I (upper a) (i_pinf I) && i_eqb I (upper b) (i_pinf I)) |}.
 
   Definition idiv (a b : ival) : ival :=
     {| iv := if contains_zero b then (i_ninf I, i_pinf I) else b_div B (iv a) (iv b);
@@ -126,16 +126,22 @@ Section IntervalModel.
     in {| iv := b; nanf := u |}.
 
   (* glibc: pow(0.0f, -1.0f) = inf, pow(-1.0f, integer) is never NaN *)
+  (* a NaN bound returned by a Boost primitive is widened to the infinity *)
+  Definition sanitize (b : bnd) : bnd :=
+    (if i_isnan I (fst b) then i_ninf I else fst b, if i_isnan I (snd b) then i_pinf I else snd b).
+
   Definition ipow (a b : ival) : ival :=
     let bpt := i_trunc I (lower b) in
-    {| iv := b_pow B (iv a) bpt;
+    {| iv := if Z.ltb bpt 0 && contains_zero a then (i_ninf I, i_pinf I) else b_pow B (iv a) bpt;
        nanf := nanf a || nanf b || (contains_zero a && Z.eqb bpt 0) |}.
 
   Definition inth_root (a b : ival) : ival :=
     let bpt := i_trunc I (lower b) in
-    {| iv := b_nth_root B (iv a) bpt;
+    {| iv := sanitize (b_nth_root B (iv a) bpt);
        nanf := nanf a || nanf b
-               || (i_leb I (lower a) (i_zero I) && negb (Z.testbit bpt 1)) |}.   (* !(bPt & 2) *)
+               || (i_leb I (lower a) (i_zero I) && negb (Z.testbit bpt 0)) |}.   (* !(bPt & 1) *)
+
+  Definition is_inf (x : num) := i_eqb I x (i_pinf I) || i_eqb I x (i_ninf I).
 
   Definition imod (a b : ival) : ival :=
     let out0 := (i_fmin I (lower b) (i_zero I), i_fmax I (i_zero I) (upper b)) in
@@ -157,14 +163,15 @@ Section IntervalModel.
         | false, false => b_empty B                                  (* position 0 *)
         end
       else out0 in
-    {| iv := out; nanf := bpos && bneg |}.
+    {| iv := out; nanf := nanf a || nanf b || is_inf (lower a) || is_inf (upper a) || (bpos && bneg) |}.
 
   Definition inanfill (a b : ival) : ival :=
     if nanf a then {| iv := b_hull B (iv a) (iv b); nanf := nanf b |}
     else {| iv := iv a; nanf := false |}.
 
   Definition icompare (a b : ival) : ival :=
-    if i_ltb I (upper a) (lower b) then {| iv := (i_mone I, i_mone I); nanf := false |}
+    if nanf a || nanf b then {| iv := (i_mone I, i_one I); nanf := false |}
+    else if i_ltb I (upper a) (lower b) then {| iv := (i_mone I, i_mone I); nanf := false |}
     else if i_ltb I (upper b) (lower a) then {| iv := (i_one I, i_one I); nanf := false |}
     else {| iv := (i_mone I, i_one I); nanf := false |}.
 
@@ -172,25 +179,28 @@ Section IntervalModel.
   Definition isqrt (a : ival) :=
     {| iv := b_sqrt B (iv a); nanf := nanf a || i_ltb I (lower a) (i_zero I) |}.
   Definition ineg (a : ival) := {| iv := b_neg B (iv a); nanf := nanf a |}.
-  Definition isin (a : ival) := {| iv := b_sin B (iv a); nanf := nanf a |}.
-  Definition icos (a : ival) := {| iv := b_cos B (iv a); nanf := nanf a |}.
-  Definition itan (a : ival) := {| iv := b_tan B (iv a); nanf := nanf a |}.
+  Definition isin (a : ival) :=
+    {| iv := b_sin B (iv a); nanf := nanf a || is_inf (lower a) || is_inf (upper a) |}.
+  Definition icos (a : ival) :=
+    {| iv := b_cos B (iv a); nanf := nanf a || is_inf (lower a) || is_inf (upper a) |}.
+  Definition itan (a : ival) :=
+    {| iv := b_tan B (iv a); nanf := nanf a || is_inf (lower a) || is_inf (upper a) |}.
   Definition iasin (a : ival) :=
     {| iv := b_asin B (iv a);
        nanf := nanf a || i_ltb I (lower a) (i_mone I) || i_ltb I (i_one I) (upper a) |}.
   Definition iacos (a : ival) :=
     {| iv := b_acos B (iv a);
        nanf := nanf a || i_ltb I (lower a) (i_mone I) || i_ltb I (i_one I) (upper a) |}.
-  Definition is_inf (x : num) := i_eqb I x (i_pinf I) || i_eqb I x (i_ninf I).
   Definition iatan (a : ival) :=
     {| iv := if is_inf (lower a) || is_inf (upper a) then (i_neghalfpi I, i_halfpi I)
              else b_atan B (iv a);
        nanf := nanf a |}.
   Definition iexp (a : ival) := {| iv := b_exp B (iv a); nanf := nanf a |}.
   Definition ilog (a : ival) :=
-    {| iv := b_log B (iv a); nanf := nanf a || i_ltb I (lower a) (i_zero I) |}.
+    {| iv := sanitize (b_log B (iv a)); nanf := nanf a || i_ltb I (lower a) (i_zero I) |}.
   Definition iabs (a : ival) := {| iv := b_abs B (iv a); nanf := nanf a |}.
-  Definition irecip (a : ival) := {| iv := b_recip B (iv a); nanf := nanf a |}.
+  Definition irecip (a : ival) :=
+    {| iv := if contains_zero a then (i_ninf I, i_pinf I) else b_recip B (iv a); nanf := nanf a |}.
 
   (* IntervalEvaluator::operator() *)
   Definition ieval_un (op : opcode) (a : ival) : ival :=
